@@ -152,6 +152,10 @@ class JacobianWrapper(object):
             return err_estimate, True
 
     def __call__(self, y, *args, **kwargs):
+        if isinstance(y, numpy.ndarray) and y.dtype.kind in "iub":
+            # an integer-typed evaluation point: the differences (and the accumulators typed after the function's
+            # output) would be truncated to integers
+            y = y.astype(numpy.float64)
         if self.richardson_iter > 0:
             if self.adaptive:
                 out = self.adaptive_richardson(y, *args, **kwargs)
